@@ -80,7 +80,8 @@ def run_cell(rec, cell):
         kw['transports'] = tr
     if sched:
         rec.count('cells_under_random_schedules')
-    sim = scen.make_sim(srv, server_kwargs=kw, ws_close_mode=conv,
+    sim = scen.make_sim(srv, real_ws_driver=sum(cell) % 2 == 1,
+                        server_kwargs=kw, ws_close_mode=conv,
                         policy='random' if sched else 'fifo', seed=sched,
                         yield_prob=0.3 if sched else 0.0)
     # the spelling of the handshake headers (case-insensitive tokens) is
@@ -444,13 +445,13 @@ def plan(tier, seed):
     shards = [{'cells': chosen[i::n], 'all': tier == 'thorough'}
               for i in range(n)]
     shards[1]['compete'] = [
-        {'compete': [srv, b_when, b_act, a_end]} for srv in SRV
+        {'compete': [srv, b_when, b_act, a_end]} for srv in SRV + ['W']
         for b_when in ('before-probe', 'after-probe', 'probes-early')
         for b_act in ('wrong-first', 'close', 'probe-then-wrong',
                       'probe-then-close', 'probe-then-upgrade')
         for a_end in ('client-close', 'disconnect')]
     shards[2]['compete'] = [
-        {'competefail': [srv, ap, ah, bp, bh]} for srv in SRV
+        {'competefail': [srv, ap, ah, bp, bh]} for srv in SRV + ['W']
         for ap in (0, 1) for ah in ('wrong', 'close')
         for bp in (0, 1) for bh in ('wrong', 'close')]
     shards[0]['nodriver'] = [{'srv': x, 'when': w} for x in SRV[:2]
